@@ -77,6 +77,9 @@ type ListOpts struct {
 	StopOnError bool
 	Format      string // "" = no formatting
 	ViaInfos    bool   // use fsscanner + ConnlistFromResourceInfos
+	// Twice: the analyzer first analyses the directory once (result dropped) and the result reported is that of its SECOND analysis of
+	// the same directory - an analyzer object is not single-use, and what it was configured with holds for every analysis it makes
+	Twice bool
 }
 
 func parseIPPeer(s string) [][2]uint32 {
@@ -166,6 +169,9 @@ func List(dir string, o ListOpts) (res *ListResult) {
 	var conns []connlist.Peer2PeerConnection
 	var peers []connlist.Peer
 	var err error
+	if o.Twice {
+		_, _, _ = ca.ConnlistFromDirPath(dir)
+	}
 	if o.ViaInfos {
 		infos, scanErrs := fsscanner.GetResourceInfosFromDirPath([]string{dir}, true, false)
 		res.ScanErrs = len(scanErrs)
